@@ -605,5 +605,107 @@ impl super::Transport for ArcCC {
     }
 }
 
+/// Verification hook: a read-only copy of the controller state.
+#[cfg(gmquic_verif)]
+pub mod verif {
+    use tokio::time::{Duration, Instant};
+
+    #[derive(Debug, Clone)]
+    pub struct VerifPacket {
+        pub packet_number: u64,
+        pub time_sent: Instant,
+        pub ack_eliciting: bool,
+        pub in_flight: bool,
+        pub sent_bytes: usize,
+        /// 0 = outstanding, 1 = acknowledged, 2 = declared lost
+        pub state: u8,
+    }
+
+    #[derive(Debug, Clone)]
+    pub struct VerifSpace {
+        pub largest_acked: Option<u64>,
+        pub loss_time: Option<Instant>,
+        pub time_of_last_ack_eliciting_packet: Option<Instant>,
+        pub sent_packets: Vec<VerifPacket>,
+    }
+
+    #[derive(Debug, Clone)]
+    pub struct VerifSnapshot {
+        pub congestion_window: usize,
+        pub ssthresh: usize,
+        pub bytes_in_flight: usize,
+        pub recovery_start: Option<Instant>,
+        pub pto_count: u32,
+        pub loss_detection_timer: Option<Instant>,
+        pub latest_rtt: Duration,
+        pub smoothed_rtt: Duration,
+        pub rttvar: Duration,
+        pub min_rtt: Duration,
+        pub first_rtt_sample: Option<Instant>,
+        pub loss_delay: Duration,
+        pub need_send_ack_eliciting: [usize; 3],
+        pub pending_burst: bool,
+        pub pacer_tokens: usize,
+        pub pacer_capacity: usize,
+        pub spaces: Vec<VerifSpace>,
+    }
+}
+
+#[cfg(gmquic_verif)]
+impl ArcCC {
+    /// Verification hook (read-only): snapshot of the loss-detection and congestion state.
+    pub fn verif_snapshot(&self) -> verif::VerifSnapshot {
+        use crate::packets::State;
+        let guard = self.0.lock().unwrap();
+        let (congestion_window, ssthresh, bytes_in_flight, recovery_start) =
+            guard.algorithm.verif_state();
+        let (latest_rtt, smoothed_rtt, rttvar, min_rtt, first_rtt_sample) = guard.rtt.verif_state();
+        let (pacer_tokens, pacer_capacity) = guard.pacer.verif_state();
+        verif::VerifSnapshot {
+            congestion_window,
+            ssthresh,
+            bytes_in_flight,
+            recovery_start,
+            pto_count: guard.pto_count,
+            loss_detection_timer: guard.loss_detection_timer,
+            latest_rtt,
+            smoothed_rtt,
+            rttvar,
+            min_rtt,
+            first_rtt_sample,
+            loss_delay: guard.rtt.loss_delay(),
+            need_send_ack_eliciting: guard.need_send_ack_eliciting_packets,
+            pending_burst: guard.pending_burst,
+            pacer_tokens,
+            pacer_capacity,
+            spaces: guard
+                .packet_spaces
+                .iter()
+                .map(|space| verif::VerifSpace {
+                    largest_acked: space.largest_acked_packet,
+                    loss_time: space.loss_time,
+                    time_of_last_ack_eliciting_packet: space.time_of_last_ack_eliciting_packet,
+                    sent_packets: space
+                        .sent_packets
+                        .iter()
+                        .map(|sent| verif::VerifPacket {
+                            packet_number: sent.packet_number,
+                            time_sent: sent.time_sent,
+                            ack_eliciting: sent.ack_eliciting,
+                            in_flight: sent.count_for_cc,
+                            sent_bytes: sent.sent_bytes,
+                            state: match sent.state {
+                                State::Inflight => 0,
+                                State::Acked => 1,
+                                State::Retransmitted => 2,
+                            },
+                        })
+                        .collect(),
+                })
+                .collect(),
+        }
+    }
+}
+
 #[cfg(test)]
 mod tests {}
